@@ -3,29 +3,13 @@ import Irismod.Sdk.GoSem
 namespace Irismod.Gen.PureServiceSched
 open Irismod.Sdk Irismod.GoSem
 
-/-- argument 2 of `k.DeleteRequestBatchExpiration` -/
-def EndBlocker_call_DeleteRequestBatchExpiration_1_arg2 (read_ctx_BlockHeight : Int) : Option (Int) := do
-  some read_ctx_BlockHeight
-
-/-- argument 2 of `k.AddNewRequestBatch` -/
-def EndBlocker_call_AddNewRequestBatch_1_arg2 (read_ctx_BlockHeight : Int) (requestContext_Timeout : Int) (requestContext_RepeatedFrequency : Nat) : Option (Int) := do
-  some (I64_Add (I64_Sub read_ctx_BlockHeight requestContext_Timeout) (I64_wrap (requestContext_RepeatedFrequency : Int)))
-
-/-- argument 2 of `k.DeleteNewRequestBatch` -/
-def EndBlocker_call_DeleteNewRequestBatch_1_arg2 (read_ctx_BlockHeight : Int) : Option (Int) := do
-  some read_ctx_BlockHeight
-
-/-- argument 2 of `k.AddRequestBatchExpiration` -/
-def EndBlocker_call_AddRequestBatchExpiration_1_arg2 (read_ctx_BlockHeight : Int) (requestContext_Timeout : Int) : Option (Int) := do
-  some (I64_Add read_ctx_BlockHeight requestContext_Timeout)
-
-/-- argument 2 of `k.DeleteNewRequestBatch` -/
-def EndBlocker_call_DeleteNewRequestBatch_2_arg2 (read_ctx_BlockHeight : Int) : Option (Int) := do
-  some read_ctx_BlockHeight
-
 /-- branch condition: `requestContext.BatchState != types.BATCHCOMPLETED` -/
 def EndBlocker_cond_1 (requestContext_BatchState : Int) : Option (Bool) := do
   some (requestContext_BatchState != (1 : Int))
+
+/-- argument 2 of `k.DeleteRequestBatchExpiration` -/
+def EndBlocker_call_DeleteRequestBatchExpiration_1_arg2 (read_ctx_BlockHeight : Int) : Option (Int) := do
+  some read_ctx_BlockHeight
 
 /-- branch condition: `requestContext.State == types.COMPLETED` -/
 def EndBlocker_cond_2 (requestContext_State : Int) : Option (Bool) := do
@@ -39,9 +23,17 @@ def EndBlocker_cond_3 (requestContext_State : Int) : Option (Bool) := do
 def EndBlocker_cond_4 (requestContext_Repeated : Bool) (requestContext_RepeatedTotal : Int) (requestContext_BatchCounter : Nat) : Option (Bool) := do
   some (requestContext_Repeated && ((decide (requestContext_RepeatedTotal < (0 : Int))) || (decide ((I64_wrap (requestContext_BatchCounter : Int)) < requestContext_RepeatedTotal))))
 
+/-- argument 2 of `k.AddNewRequestBatch` -/
+def EndBlocker_call_AddNewRequestBatch_1_arg2 (read_ctx_BlockHeight : Int) (requestContext_Timeout : Int) (requestContext_RepeatedFrequency : Nat) : Option (Int) := do
+  some (I64_Add (I64_Sub read_ctx_BlockHeight requestContext_Timeout) (I64_wrap (requestContext_RepeatedFrequency : Int)))
+
 /-- branch condition: `requestContext.State == types.RUNNING` -/
 def EndBlocker_cond_5 (requestContext_State : Int) : Option (Bool) := do
   some (requestContext_State == (0 : Int))
+
+/-- argument 2 of `k.DeleteNewRequestBatch` -/
+def EndBlocker_call_DeleteNewRequestBatch_1_arg2 (read_ctx_BlockHeight : Int) : Option (Int) := do
+  some read_ctx_BlockHeight
 
 /-- branch condition: `len(providers) > 0 && len(providers) >= int(requestContext.ResponseThreshold)` -/
 def EndBlocker_cond_6 (read_len_providers : Int) (requestContext_ResponseThreshold : Nat) : Option (Bool) := do
@@ -51,24 +43,17 @@ def EndBlocker_cond_6 (read_len_providers : Int) (requestContext_ResponseThresho
 def EndBlocker_cond_7 (requestContext_State : Int) : Option (Bool) := do
   some (requestContext_State == (0 : Int))
 
+/-- argument 2 of `k.AddRequestBatchExpiration` -/
+def EndBlocker_call_AddRequestBatchExpiration_1_arg2 (read_ctx_BlockHeight : Int) (requestContext_Timeout : Int) : Option (Int) := do
+  some (I64_Add read_ctx_BlockHeight requestContext_Timeout)
+
+/-- argument 2 of `k.DeleteNewRequestBatch` -/
+def EndBlocker_call_DeleteNewRequestBatch_2_arg2 (read_ctx_BlockHeight : Int) : Option (Int) := do
+  some read_ctx_BlockHeight
+
 /-- branch condition: `len(str) != 2` -/
 def EndBlocker_cond_8 (read_len_str : Int) : Option (Bool) := do
   some (read_len_str != (2 : Int))
-
-def UpdateRequestContext_timeout_1 (requestContext_Timeout : Int) : Option (Int) := do
-  some requestContext_Timeout
-
-def UpdateRequestContext_repeatedFreq_1 (requestContext_RepeatedFrequency : Nat) : Option (Nat) := do
-  some requestContext_RepeatedFrequency
-
-def UpdateRequestContext_requestContext_Timeout_1 (timeout : Int) : Option (Int) := do
-  some timeout
-
-def UpdateRequestContext_requestContext_RepeatedFrequency_1 (repeatedFreq : Nat) : Option (Nat) := do
-  some repeatedFreq
-
-def UpdateRequestContext_requestContext_RepeatedTotal_1 (repeatedTotal : Int) : Option (Int) := do
-  some repeatedTotal
 
 /-- branch condition: `len(requestContext.ModuleName) > 0` -/
 def UpdateRequestContext_cond_1 (read_len_requestContext_ModuleName : Int) : Option (Bool) := do
@@ -110,9 +95,15 @@ def UpdateRequestContext_guard_9 (timeout : Int) (maxRequestTimeout : Int) : Opt
 def UpdateRequestContext_cond_10 (timeout : Int) : Option (Bool) := do
   some (timeout == (0 : Int))
 
+def UpdateRequestContext_timeout_1 (requestContext_Timeout : Int) : Option (Int) := do
+  some requestContext_Timeout
+
 /-- branch condition: `repeatedFreq == 0` -/
 def UpdateRequestContext_cond_11 (repeatedFreq : Nat) : Option (Bool) := do
   some (repeatedFreq == (0 : Nat))
+
+def UpdateRequestContext_repeatedFreq_1 (requestContext_RepeatedFrequency : Nat) : Option (Nat) := do
+  some requestContext_RepeatedFrequency
 
 /-- rejects when true: `repeatedFreq < uint64(timeout)` -/
 def UpdateRequestContext_guard_12 (repeatedFreq : Nat) (timeout : Int) : Option (Bool) := do
@@ -130,17 +121,22 @@ def UpdateRequestContext_cond_14 (read_len_pds : Int) : Option (Bool) := do
 def UpdateRequestContext_cond_15 (timeout : Int) : Option (Bool) := do
   some (decide (timeout > (0 : Int)))
 
+def UpdateRequestContext_requestContext_Timeout_1 (timeout : Int) : Option (Int) := do
+  some timeout
+
 /-- branch condition: `repeatedFreq > 0` -/
 def UpdateRequestContext_cond_16 (repeatedFreq : Nat) : Option (Bool) := do
   some (decide (repeatedFreq > (0 : Nat)))
+
+def UpdateRequestContext_requestContext_RepeatedFrequency_1 (repeatedFreq : Nat) : Option (Nat) := do
+  some repeatedFreq
 
 /-- branch condition: `repeatedTotal != 0` -/
 def UpdateRequestContext_cond_17 (repeatedTotal : Int) : Option (Bool) := do
   some (repeatedTotal != (0 : Int))
 
-/-- argument 2 of `k.AddNewRequestBatch` -/
-def StartRequestContext_call_AddNewRequestBatch_1_arg2 (read_ctx_BlockHeight : Int) : Option (Int) := do
-  some read_ctx_BlockHeight
+def UpdateRequestContext_requestContext_RepeatedTotal_1 (repeatedTotal : Int) : Option (Int) := do
+  some repeatedTotal
 
 /-- branch condition: `len(requestContext.ModuleName) > 0` -/
 def StartRequestContext_cond_1 (read_len_requestContext_ModuleName : Int) : Option (Bool) := do
@@ -158,10 +154,14 @@ def StartRequestContext_guard_3 (requestContext_Repeated : Bool) (requestContext
 def StartRequestContext_cond_4 (read_k_HasRequestBatchExpiration_ctx_requestContextID : Bool) (read_k_HasNewRequestBatch_ctx_requestContextID : Bool) : Option (Bool) := do
   some ((!read_k_HasRequestBatchExpiration_ctx_requestContextID) && (!read_k_HasNewRequestBatch_ctx_requestContextID))
 
+/-- argument 2 of `k.AddNewRequestBatch` -/
+def StartRequestContext_call_AddNewRequestBatch_1_arg2 (read_ctx_BlockHeight : Int) : Option (Int) := do
+  some read_ctx_BlockHeight
+
 /-- targets the translator refused, with the reason (must be empty) -/
 def untranslated : List String := []
 
 /-- names of the translated definitions -/
-def translated : List String := ["EndBlocker_call_DeleteRequestBatchExpiration_1_arg2(read_ctx_BlockHeight)", "EndBlocker_call_AddNewRequestBatch_1_arg2(read_ctx_BlockHeight,requestContext_Timeout,requestContext_RepeatedFrequency)", "EndBlocker_call_DeleteNewRequestBatch_1_arg2(read_ctx_BlockHeight)", "EndBlocker_call_AddRequestBatchExpiration_1_arg2(read_ctx_BlockHeight,requestContext_Timeout)", "EndBlocker_call_DeleteNewRequestBatch_2_arg2(read_ctx_BlockHeight)", "EndBlocker_cond_1(requestContext_BatchState)", "EndBlocker_cond_2(requestContext_State)", "EndBlocker_cond_3(requestContext_State)", "EndBlocker_cond_4(requestContext_Repeated,requestContext_RepeatedTotal,requestContext_BatchCounter)", "EndBlocker_cond_5(requestContext_State)", "EndBlocker_cond_6(read_len_providers,requestContext_ResponseThreshold)", "EndBlocker_cond_7(requestContext_State)", "EndBlocker_cond_8(read_len_str)", "UpdateRequestContext_timeout_1(requestContext_Timeout)", "UpdateRequestContext_repeatedFreq_1(requestContext_RepeatedFrequency)", "UpdateRequestContext_requestContext_Timeout_1(timeout)", "UpdateRequestContext_requestContext_RepeatedFrequency_1(repeatedFreq)", "UpdateRequestContext_requestContext_RepeatedTotal_1(repeatedTotal)", "UpdateRequestContext_cond_1(read_len_requestContext_ModuleName)", "UpdateRequestContext_cond_2(requestContext_State)", "UpdateRequestContext_cond_3(read_len_requestContext_ModuleName)", "UpdateRequestContext_cond_4(respThreshold)", "UpdateRequestContext_cond_5(read_len_pds)", "UpdateRequestContext_guard_6(respThreshold,read_len_pds)", "UpdateRequestContext_cond_7(respThreshold)", "UpdateRequestContext_cond_8(read_serviceFeeCap_Empty)", "UpdateRequestContext_guard_9(timeout,maxRequestTimeout)", "UpdateRequestContext_cond_10(timeout)", "UpdateRequestContext_cond_11(repeatedFreq)", "UpdateRequestContext_guard_12(repeatedFreq,timeout)", "UpdateRequestContext_guard_13(repeatedTotal,requestContext_BatchCounter)", "UpdateRequestContext_cond_14(read_len_pds)", "UpdateRequestContext_cond_15(timeout)", "UpdateRequestContext_cond_16(repeatedFreq)", "UpdateRequestContext_cond_17(repeatedTotal)", "StartRequestContext_call_AddNewRequestBatch_1_arg2(read_ctx_BlockHeight)", "StartRequestContext_cond_1(read_len_requestContext_ModuleName)", "StartRequestContext_cond_2(requestContext_State)", "StartRequestContext_guard_3(requestContext_Repeated,requestContext_RepeatedTotal,requestContext_BatchCounter)", "StartRequestContext_cond_4(read_k_HasRequestBatchExpiration_ctx_requestContextID,read_k_HasNewRequestBatch_ctx_requestContextID)"]
+def translated : List String := ["EndBlocker_cond_1(requestContext_BatchState)", "EndBlocker_call_DeleteRequestBatchExpiration_1_arg2(read_ctx_BlockHeight)", "EndBlocker_cond_2(requestContext_State)", "EndBlocker_cond_3(requestContext_State)", "EndBlocker_cond_4(requestContext_Repeated,requestContext_RepeatedTotal,requestContext_BatchCounter)", "EndBlocker_call_AddNewRequestBatch_1_arg2(read_ctx_BlockHeight,requestContext_Timeout,requestContext_RepeatedFrequency)", "EndBlocker_cond_5(requestContext_State)", "EndBlocker_call_DeleteNewRequestBatch_1_arg2(read_ctx_BlockHeight)", "EndBlocker_cond_6(read_len_providers,requestContext_ResponseThreshold)", "EndBlocker_cond_7(requestContext_State)", "EndBlocker_call_AddRequestBatchExpiration_1_arg2(read_ctx_BlockHeight,requestContext_Timeout)", "EndBlocker_call_DeleteNewRequestBatch_2_arg2(read_ctx_BlockHeight)", "EndBlocker_cond_8(read_len_str)", "UpdateRequestContext_cond_1(read_len_requestContext_ModuleName)", "UpdateRequestContext_cond_2(requestContext_State)", "UpdateRequestContext_cond_3(read_len_requestContext_ModuleName)", "UpdateRequestContext_cond_4(respThreshold)", "UpdateRequestContext_cond_5(read_len_pds)", "UpdateRequestContext_guard_6(respThreshold,read_len_pds)", "UpdateRequestContext_cond_7(respThreshold)", "UpdateRequestContext_cond_8(read_serviceFeeCap_Empty)", "UpdateRequestContext_guard_9(timeout,maxRequestTimeout)", "UpdateRequestContext_cond_10(timeout)", "UpdateRequestContext_timeout_1(requestContext_Timeout)", "UpdateRequestContext_cond_11(repeatedFreq)", "UpdateRequestContext_repeatedFreq_1(requestContext_RepeatedFrequency)", "UpdateRequestContext_guard_12(repeatedFreq,timeout)", "UpdateRequestContext_guard_13(repeatedTotal,requestContext_BatchCounter)", "UpdateRequestContext_cond_14(read_len_pds)", "UpdateRequestContext_cond_15(timeout)", "UpdateRequestContext_requestContext_Timeout_1(timeout)", "UpdateRequestContext_cond_16(repeatedFreq)", "UpdateRequestContext_requestContext_RepeatedFrequency_1(repeatedFreq)", "UpdateRequestContext_cond_17(repeatedTotal)", "UpdateRequestContext_requestContext_RepeatedTotal_1(repeatedTotal)", "StartRequestContext_cond_1(read_len_requestContext_ModuleName)", "StartRequestContext_cond_2(requestContext_State)", "StartRequestContext_guard_3(requestContext_Repeated,requestContext_RepeatedTotal,requestContext_BatchCounter)", "StartRequestContext_cond_4(read_k_HasRequestBatchExpiration_ctx_requestContextID,read_k_HasNewRequestBatch_ctx_requestContextID)", "StartRequestContext_call_AddNewRequestBatch_1_arg2(read_ctx_BlockHeight)"]
 
 end Irismod.Gen.PureServiceSched
